@@ -232,3 +232,13 @@ Print Assumptions C17_never_nil_refuted.
 Print Assumptions C17_collision_answer.
 Print Assumptions C17_collision_in_run.
 Print Assumptions C17_default_new_nick.
+
+(* generated-code tie *)
+(* Gen/GoFuncs.v holds the Gallina TRANSLATION of the Go body of DefaultNewNick, regenerated
+   from the source on every run (translator/go2coq.go), with uint8 arithmetic wrapping and
+   string(c) as UTF-8 encoding; it is equal to the model default_new_nick_res — for every
+   input, panics included (Proofs/GenEqNick.v). *)
+From Verif Require Import GoFuncs GenEqNick.
+Theorem gen_C17_DefaultNewNick : forall old, go_client_DefaultNewNick old = default_new_nick_res old.
+Proof. exact go_DefaultNewNick_eq. Qed.
+Print Assumptions gen_C17_DefaultNewNick.
